@@ -48,6 +48,20 @@ fn force_ans<U: User, E: Engine<U>>(x: LTerm<U, E>) -> Goal<U, E> {
 
 #[cfg(feature = "clpfd")]
 fn enforce_constraints_fd<U: User, E: Engine<U>>(x: LTerm<U, E>) -> Goal<U, E> {
+    proto_vulcan!(fngoal move |solver, state| {
+        if state.dstore_ref().is_empty() {
+            // No finite domains to label. Finishing in a single step keeps the cost of
+            // reification independent of the size of the answer, so answers leave the
+            // query in the order in which the search produced them.
+            state.verify_all_bound();
+            return Stream::unit(Box::new(state));
+        }
+        label_fd(x.clone()).solve(solver, state)
+    })
+}
+
+#[cfg(feature = "clpfd")]
+fn label_fd<U: User, E: Engine<U>>(x: LTerm<U, E>) -> Goal<U, E> {
     proto_vulcan!([
         force_ans(x),
         fngoal | engine,
